@@ -57,9 +57,14 @@ type pkgInfo struct {
 	tables   map[string]*constTable
 }
 
+// dieErr is what die panics with: main recovers it per output file, so that a function the translator cannot handle
+// only invalidates the generated file it belongs to (fail closed per file, see main)
+type dieErr struct{ msg string }
+
 func die(format string, a ...interface{}) {
-	fmt.Fprintf(os.Stderr, "extract: "+format+"\n", a...)
-	os.Exit(2)
+	msg := fmt.Sprintf("extract: "+format, a...)
+	fmt.Fprintln(os.Stderr, msg)
+	panic(dieErr{msg})
 }
 
 func load(dir string) *pkgInfo {
@@ -613,18 +618,70 @@ func write(path, content string) {
 	}
 }
 
+// failStub is written in place of a generated file whose translation failed: it does not compile, so every theorem
+// that imports it fails to check (and only those); the message is part of the proposition Lean prints
+func failStub(path, msg string) {
+	q := strings.NewReplacer("\\", "/", "\"", "'", "\n", " ").Replace(msg)
+	write(path, "-- REGENERATED by /verif/extract: TRANSLATION FAILED, this file fails closed. Do not edit.\n"+
+		"namespace Astits.Generated\n\n/-- "+q+" -/\ntheorem extract_failed : \""+q+"\" = \"\" := by decide\n\nend Astits.Generated\n")
+}
+
+// guarded runs one emitter; if it dies, the files it is responsible for are replaced by failing stubs
+func guarded(out string, files []string, failed *[]string, fn func()) {
+	defer func() {
+		if r := recover(); r != nil {
+			de, ok := r.(dieErr)
+			if !ok {
+				panic(r)
+			}
+			for _, f := range files {
+				failStub(filepath.Join(out, f), de.msg)
+			}
+			*failed = append(*failed, files...)
+		}
+	}()
+	fn()
+}
+
 func main() {
 	if len(os.Args) != 3 {
-		die("usage: extract <repo dir> <out dir>")
+		fmt.Fprintln(os.Stderr, "usage: extract <repo dir> <out dir>")
+		os.Exit(2)
 	}
-	p := load(os.Args[1])
+	var p *pkgInfo
+	func() {
+		defer func() {
+			if r := recover(); r != nil {
+				if _, ok := r.(dieErr); ok {
+					os.Exit(2) // the source cannot even be loaded: nothing is generated
+				}
+				panic(r)
+			}
+		}()
+		p = load(os.Args[1])
+	}()
 	out := os.Args[2]
 	os.MkdirAll(out, 0o755)
-	emitCRC(p, out)
-	consts := emitConsts(p, out)
-	facts := emitExprsAndFacts(p, out)
-	emitLengths(p, out)
-	facts["consts"] = consts
+	// every output file is generated on its own: a construct the translator does not know invalidates the file it would
+	// have gone into (exit status 3: some files are failing stubs), not the others
+	var failed []string
+	facts := map[string]interface{}{}
+	guarded(out, []string{"CRC.lean"}, &failed, func() { emitCRC(p, out) })
+	guarded(out, []string{"Consts.lean"}, &failed, func() { facts["consts"] = emitConsts(p, out) })
+	guarded(out, []string{"Exprs.lean"}, &failed, func() { emitExprs(p, out) })
+	guarded(out, []string{"Facts.lean"}, &failed, func() {
+		for k, v := range emitFacts(p, out) {
+			facts[k] = v
+		}
+	})
+	guarded(out, []string{"Lengths.lean"}, &failed, func() { emitLengths(p, out) })
+	if len(failed) > 0 {
+		facts["failed"] = failed
+	}
 	js, _ := json.MarshalIndent(facts, "", " ")
 	write(filepath.Join(out, "facts.json"), string(js)+"\n")
+	if len(failed) > 0 {
+		fmt.Fprintf(os.Stderr, "extract: failing stubs written for %s\n", strings.Join(failed, ", "))
+		os.Exit(3)
+	}
 }
